@@ -36,7 +36,7 @@ func Register() {
 // every use gets fresh, unshared objects)
 
 type V struct {
-	K  string   `json:"k"` // int float byte string bool nil error list map set
+	K  string   `json:"k"` // int float byte string bytes bool nil error list map set
 	I  int64    `json:"i,omitempty"`
 	F  float64  `json:"f,omitempty"`
 	S  string   `json:"s,omitempty"`
@@ -55,6 +55,8 @@ func (v V) String() string {
 		return fmt.Sprintf("byte(%d)", v.I)
 	case "string":
 		return fmt.Sprintf("%q", v.S)
+	case "bytes":
+		return fmt.Sprintf("byte_slice(%q)", v.S)
 	case "bool":
 		return fmt.Sprintf("%t", v.B)
 	case "nil":
@@ -93,6 +95,8 @@ func (v V) Obj() object.Object {
 		return object.NewByte(byte(v.I))
 	case "string":
 		return object.NewString(v.S)
+	case "bytes":
+		return object.NewByteSlice([]byte(v.S))
 	case "bool":
 		return object.NewBool(v.B)
 	case "nil":
@@ -129,6 +133,7 @@ func vi(i int64) V                 { return V{K: "int", I: i} }
 func vf(f float64) V               { return V{K: "float", F: f} }
 func vb(b byte) V                  { return V{K: "byte", I: int64(b)} }
 func vs(s string) V                { return V{K: "string", S: s} }
+func vbs(s string) V               { return V{K: "bytes", S: s} }
 func vbool(b bool) V               { return V{K: "bool", B: b} }
 func vlist(l ...V) V               { return V{K: "list", L: l} }
 func vset(l ...V) V                { return V{K: "set", L: l} }
@@ -233,6 +238,7 @@ func Pool() []V {
 		vf(math.Inf(1)), vf(math.Inf(-1)), vf(math.SmallestNonzeroFloat64), vf(-math.SmallestNonzeroFloat64), vf(math.MaxFloat64), vf(9.223372036854775807e18), vf(-9.223372036854775808e18), vf(0.1), vf(1e-300),
 		vb(0), vb(1), vb(2), vb(3), vb(127), vb(128), vb(254), vb(255),
 		vs(""), vs("a"), vs("b"), vs("ab"), vs("A"), vs("a "), vs(" a"), vs("0"), vs("1"), vs("é"), vs("é"), vs("日本"), vs("日"), vs("\xff"), vs("\xfe\xff"), vs("a\x00"), vs("\x00"), vs("😀"), vs("z"), vs("nil"), vs("true"),
+		vbs(""), vbs("a"), vbs("b"), vbs("ab"), vbs("\xff"), vbs("\x00"), vbs("é"), vbs("1"),
 		vbool(true), vbool(false),
 		{K: "nil"},
 		verr("", true), verr("x", true), verr("x", false), verr("y", true), verr("a", false),
@@ -241,9 +247,9 @@ func Pool() []V {
 		vlist(vs("a")), vlist(vs("a"), vs("b")), vlist(vs("b")), vlist(vs("")), vlist(vs("b"), vs("a")),
 		vlist(vbool(true)), vlist(vbool(false)), vlist(vbool(false), vbool(true)),
 		vlist(vlist()), vlist(vlist(vi(1))), vlist(vlist(vi(1)), vlist(vi(2))), vlist(vlist(vi(2))), vlist(vlist(vi(1), vi(2))), vlist(vlist(vlist())),
-		vlist(V{K: "nil"}), vlist(vi(1), vs("a")), vlist(vs("a"), vi(1)), vlist(vmap()), vlist(vmap("a", vi(1))), vlist(vset(vi(1))), vlist(vi(1), vf(1)), vlist(vf(1), vi(1)),
+		vlist(V{K: "nil"}), vlist(vi(1), vs("a")), vlist(vs("a"), vi(1)), vlist(vmap()), vlist(vmap("a", vi(1))), vlist(vset(vi(1))), vlist(vi(1), vf(1)), vlist(vf(1), vi(1)), vlist(vbs("a")), vlist(vs("a"), vbs("a")),
 		vmap(), vmap("a", vi(1)), vmap("a", vi(2)), vmap("b", vi(1)), vmap("a", vi(1), "b", vi(2)), vmap("b", vi(2), "a", vi(1)), vmap("a", vf(1)), vmap("a", vlist(vi(1))), vmap("a", vmap("a", vi(1))), vmap("a", V{K: "nil"}), vmap("", vi(0)),
-		vset(), vset(vi(1)), vset(vi(2)), vset(vi(1), vi(2)), vset(vi(2), vi(1)), vset(vs("a")), vset(vs("1")), vset(vf(1)), vset(vi(1), vf(1)), vset(vbool(true)), vset(V{K: "nil"}), vset(vb(1)), vset(vi(1), vs("a"), vbool(false)),
+		vset(), vset(vi(1)), vset(vi(2)), vset(vi(1), vi(2)), vset(vi(2), vi(1)), vset(vs("a")), vset(vs("1")), vset(vf(1)), vset(vi(1), vf(1)), vset(vbool(true)), vset(V{K: "nil"}), vset(vb(1)), vset(vi(1), vs("a"), vbool(false)), vset(vbs("a")), vset(vbs("a"), vbs("b")),
 	}
 	return p
 }
@@ -528,6 +534,11 @@ func checkMembership(o *out, needle, cont V) {
 	law := "in-" + cont.K
 	o.count(law)
 	if got != found {
+		if cont.K == "map" && found && !sameTypeFound && !got {
+			// a byte_slice needle that equals a (string) key: map keys are looked up as strings only
+			o.fail("in-map-cross-type", fmt.Sprintf("needle equals a key of another type; in=%v iterate-and-compare=%v", got, found), needle, cont)
+			return
+		}
 		if cont.K == "set" && found && !sameTypeFound && !got {
 			// an equal member of a *different* numeric type: reported under its own signature
 			o.fail("in-set-cross-type", fmt.Sprintf("needle equals a member of another type; in=%v iterate-and-compare=%v", got, found), needle, cont)
@@ -1089,6 +1100,9 @@ func drive(d *mon.Driver, replay string) int {
 		}
 		for _, v := range o.Viols {
 			sig := v.Law
+			if v.Law == "in-map-cross-type" {
+				sig = "in-map-cross-type"
+			}
 			if v.Law == "in-set-cross-type" {
 				sig = "in-set-cross-type"
 			}
